@@ -99,12 +99,22 @@ func preserved(in *oracleIn, tb, ta *TableDump, specName string, useGen bool) (v
 	}
 	var ps []pair
 	plain := map[string]pair{}
+	// STRICT added or removed by the user: an ANY column changes its typing rules with it (verbatim
+	// in a STRICT table, NUMERIC affinity otherwise); such a column is not judged
+	strictChanged := false
+	if a, b := in.cur.table(specName), in.des.table(specName); a != nil && b != nil && a.Strict != b.Strict {
+		strictChanged = true
+	}
 	for bi, cb := range tb.Cols {
 		ai := ta.colIdx(cb.Name)
 		if ai < 0 {
 			continue
 		}
 		ca := ta.Cols[ai]
+		if strictChanged && normType(cb.Type) == "any" {
+			plain[cb.Name] = pair{bi: bi, ai: ai, name: cb.Name, skip: true}
+			continue
+		}
 		if normType(ca.Type) != normType(cb.Type) {
 			// NOT NULL + DEFAULT over existing NULLs together with a type change: the values are
 			// converted (not judged), but every NULL must have become the default
@@ -193,7 +203,7 @@ func preserved(in *oracleIn, tb, ta *TableDump, specName string, useGen bool) (v
 		vs = append(vs, Verdict{cls, fmt.Sprintf("%s rows %d -> %d surviving-columns=%d", where, len(tb.Rows), len(ta.Rows), len(plain))})
 		return
 	}
-	proj := func(rows [][]string, before bool) []string {
+	proj := func(rows, types [][]string, before bool) []string {
 		out := make([]string, len(rows))
 		for i, r := range rows {
 			var sb strings.Builder
@@ -207,6 +217,12 @@ func preserved(in *oracleIn, tb, ta *TableDump, specName string, useGen bool) (v
 						v = p.dflt
 						st.coalesced++
 					}
+					if !p.coalesce && i < len(types) {
+						v += ":" + types[i][p.bi] // typeof(), next to quote()
+					}
+				}
+				if !before && !p.coalesce && i < len(types) {
+					v += ":" + types[i][p.ai]
 				}
 				sb.WriteString(v)
 				sb.WriteByte(0)
@@ -216,7 +232,7 @@ func preserved(in *oracleIn, tb, ta *TableDump, specName string, useGen bool) (v
 		sort.Strings(out)
 		return out
 	}
-	b, a := proj(tb.Rows, true), proj(ta.Rows, false)
+	b, a := proj(tb.Rows, tb.Types, true), proj(ta.Rows, ta.Types, false)
 	for i := range b {
 		if b[i] != a[i] {
 			var names []string
